@@ -18,6 +18,7 @@ func init() {
 		"(2) IDPATCH: every send of cached/packed bytes is dominated by storing the client's id into those bytes, and in the upstream path the id assignment dominates WriteMsg and Pack; (3) UPSTREAMID: the UDP forwarder only unpacks/returns a datagram whose id equals the id it sent; " +
 		"(4) LIFECYCLE: the forwarder is closed only inside the once-guard of closeNow, closeNow is called only from the reviewed set, beginUse re-checks the retired flag after taking its in-flight reference, every successful beginUse is followed by endUse on all paths; (5) POOL: every connection taken from the UDP pool is put back or discarded exactly once on every path (discard and the badConn flag are set together). " +
 		"(6) IDPATCH/private: in the reply paths the id is written only into bytes the call owns (make/Pack result, pool buffer), never into the shared packed bytes of a cache entry. " +
+		"(7) QMATCH: every use of an upstream response in dialSend (response routing, caching, writing to the client) is behind a test that it carries the asked question. " +
 		"Not decided: interleavings, colliding ids across sockets, singleflight's own guarantees."})
 }
 
@@ -28,6 +29,7 @@ func runC09(c *Ctx) {
 	c09Lifecycle(c)
 	c09Pool(c)
 	c09PrivateBytes(c)
+	c09QuestionMatch(c)
 }
 
 func c09Shared(c *Ctx) {
